@@ -6,17 +6,27 @@ rows = []
 for mp in sorted(glob.glob(os.path.join(V, "seeded", "C*", "meta.json"))):
     m = json.load(open(mp))
     pid = os.path.basename(os.path.dirname(mp))
+    rnd = {"": "1", "r2": "2", "r3": "3"}.get(pid.partition("-")[2], "?")
     valid = bool(m.get("demo_passes_on_clean") and m.get("demo_fails_on_patched") and m.get("existing_tests_pass"))
     ck = m.get("checks", {})
     det = "; ".join("%s: exit %s, %s VIOLATION lines" % (k, v["exit"], v["violation_lines"]) for k, v in ck.items())
-    rows.append((pid, valid, m.get("detected"), (m.get("summary") or "").replace("\n", " ")[:220], (m.get("needs") or "").replace("\n", " ")[:200], det, hist.get(pid, "")))
+    rc = m.get("recheck") or {}
+    now = ("yes (exit %s, %s lines; verif %s, repo %s)" % (rc.get("exit"), rc.get("violation_lines"), rc.get("verif"), rc.get("repo_head"))) if rc.get("detected") else \
+          ("NO (%s)" % json.dumps({k: rc[k] for k in rc if k in ("applies", "exit", "violation_lines", "note")}) if rc else "-")
+    first = "yes" if (m.get("detected") and pid not in hist) else ("after strengthening" if m.get("detected") or rc.get("detected") else "NO")
+    rows.append((pid, rnd, valid, first, now, (m.get("summary") or "").replace("\n", " ").replace("|", "\\|")[:220], (m.get("needs") or "").replace("\n", " ").replace("|", "\\|")[:200], det, str(hist.get(pid, "")).replace("|", "\\|")))
 with open(os.path.join(V, "seeded", "SUMMARY.md"), "w") as f:
-    f.write("# Independently seeded defects\n\nEach change was written by a fresh sub-agent that saw only the property text (nothing from /verif), "
+    f.write("# Independently seeded defects\n\nEach change was written by a fresh sub-agent that saw only the property text (nothing from /verif; rounds 2 and 3 also got "
+            "the one-line summaries of the earlier seeds for the same property and had to use a different mechanism), "
             "confirmed here in scratch worktrees by tools/seedeval.py (demo passes on the clean tree, fails on the patched tree, existing tests of the "
-            "changed packages and their core importers pass) and then run against `check.py <ID> quick` with VERIF_REPO pointing at the patched worktree.\n\n")
-    f.write("| property | seed confirmed | detected by quick check | change | needs | check result | history |\n|---|---|---|---|---|---|---|\n")
+            "changed packages and their core importers pass) and then run against `check.py <ID> quick` with VERIF_REPO pointing at the patched worktree. "
+            "\"history\" says what had to change when the first run missed a seed; \"current checks\" is the last run of tools/seedrecheck.py (every stored seed against the committed checks).\n\n")
+    f.write("| seed | round | seed confirmed | detected | current checks | change | needs | first evaluation | history |\n|---|---|---|---|---|---|---|---|---|\n")
     for r in rows:
-        f.write("| %s | %s | %s | %s | %s | %s | %s |\n" % (r[0], "yes" if r[1] else "NO", "yes" if r[2] else "NO", r[3], r[4], r[5], r[6]))
-    n = len(rows); d = sum(1 for r in rows if r[2]); v = sum(1 for r in rows if r[1])
-    f.write("\n%d seeds, %d confirmed as valid seeds, %d detected.\n" % (n, v, d))
+        f.write("| %s | %s | %s | %s | %s | %s | %s | %s | %s |\n" % (r[0], r[1], "yes" if r[2] else "NO", r[3], r[4], r[5], r[6], r[7], r[8]))
+    for rnd in ("1", "2", "3"):
+        rr = [r for r in rows if r[1] == rnd]
+        if rr:
+            f.write("\nRound %s: %d seeds, %d confirmed as valid, %d detected at the first run, %d detected by the current checks (of %d re-checked).\n" % (
+                rnd, len(rr), sum(1 for r in rr if r[2]), sum(1 for r in rr if r[3] == "yes"), sum(1 for r in rr if r[4].startswith("yes")), sum(1 for r in rr if r[4] != "-")))
 print("rows", len(rows))
